@@ -519,6 +519,12 @@ func (s *Session) loopEnv(st *State, li *loopInfo) *Env {
 					return EVal{T: v, Ty: types.Typ[types.Int]}, true
 				}
 			}
+			if li.idxCell != nil {
+				// canonical index loop: the index of the last completed iteration is i - 1
+				if v, ok := st.fr.cells[li.idxCell]; ok {
+					return EVal{T: mk(SInt, "-", v, IntLit(1)), Ty: types.Typ[types.Int]}, true
+				}
+			}
 		case "$seen":
 			its := li.iters
 			if len(its) == 0 {
@@ -551,6 +557,27 @@ func (s *Session) autoInvariants(st *State, li *loopInfo) []Term {
 					if ln, ok := fr.regs[b.Y]; ok {
 						if lt, ok := ln.(Term); ok {
 							out = append(out, Or(Eq(v, IntLit(-1)), Lt(v, lt)))
+						}
+					}
+				}
+			}
+		}
+	}
+	if li.rangeIdx == nil && li.idxCell != nil {
+		if v, ok := fr.cells[li.idxCell]; ok {
+			out = append(out, Le(TZero, v)) // checked like every invariant: holds at entry if the counter starts >= 0, preserved by i++
+			// i <= len(x) when the head compares with the length of a local slice (so that i == len(x) on exit)
+			if iff, ok := li.head.Instrs[len(li.head.Instrs)-1].(*ssa.If); ok {
+				if cmp, ok := iff.Cond.(*ssa.BinOp); ok {
+					if call, ok := cmp.Y.(*ssa.Call); ok {
+						if b, ok := call.Call.Value.(*ssa.Builtin); ok && b.Name() == "len" && len(call.Call.Args) == 1 {
+							if ld, ok := call.Call.Args[0].(*ssa.UnOp); ok && ld.Op == token.MUL {
+								if c, ok := ld.X.(*ssa.Alloc); ok {
+									if sv, ok := fr.cells[c]; ok && sv.Sort == SSlice {
+										out = append(out, Le(v, SLen(sv)))
+									}
+								}
+							}
 						}
 					}
 				}
